@@ -1,0 +1,70 @@
+//go:build verif
+
+// Contracts for r2.Rect (property C19): componentwise interval algebra, sound w.r.t. point membership.
+// Exact IEEE-754 semantics; (px,py) is a ghost probe point. Comment-only.
+
+package r2
+
+//@ property C19
+
+//@ spec func vcRectOK(r Rect) bool = !vcIsNaN(r.X.Lo) && !vcIsNaN(r.X.Hi) && !vcIsNaN(r.Y.Lo) && !vcIsNaN(r.Y.Hi) && r.IsValid()
+//@ spec func vcProbe(px, py float64) bool = !vcIsNaN(px) && !vcIsNaN(py)
+
+//@ func (r Rect) Union(other Rect) Rect
+//@   fp
+//@   ghost px float64, py float64
+//@   requires vcRectOK(r) && vcRectOK(other) && vcProbe(px, py)
+//@   ensures [sound] r.ContainsPoint(Point{px, py}) || other.ContainsPoint(Point{px, py}) ==> result.ContainsPoint(Point{px, py})
+//@   ensures [valid] vcRectOK(result)
+
+//@ func (r Rect) AddRect(other Rect) Rect
+//@   fp
+//@   ghost px float64, py float64
+//@   requires vcRectOK(r) && vcRectOK(other) && vcProbe(px, py)
+//@   ensures [sound] r.ContainsPoint(Point{px, py}) || other.ContainsPoint(Point{px, py}) ==> result.ContainsPoint(Point{px, py})
+//@   ensures [valid] vcRectOK(result)
+
+//@ func (r Rect) Intersection(other Rect) Rect
+//@   fp
+//@   ghost px float64, py float64
+//@   requires vcRectOK(r) && vcRectOK(other) && vcProbe(px, py)
+//@   ensures [sound] r.ContainsPoint(Point{px, py}) && other.ContainsPoint(Point{px, py}) ==> result.ContainsPoint(Point{px, py})
+//@   ensures [tight] result.ContainsPoint(Point{px, py}) ==> r.ContainsPoint(Point{px, py}) && other.ContainsPoint(Point{px, py})
+//@   ensures [valid] vcRectOK(result)
+
+//@ func (r Rect) Contains(other Rect) bool
+//@   fp
+//@   ghost px float64, py float64
+//@   requires vcRectOK(r) && vcRectOK(other) && vcProbe(px, py)
+//@   ensures [sound] result && other.ContainsPoint(Point{px, py}) ==> r.ContainsPoint(Point{px, py})
+
+//@ func (r Rect) InteriorContains(other Rect) bool
+//@   fp
+//@   ghost px float64, py float64
+//@   requires vcRectOK(r) && vcRectOK(other) && vcProbe(px, py)
+//@   ensures [sound] result && other.ContainsPoint(Point{px, py}) ==> r.InteriorContainsPoint(Point{px, py})
+
+//@ func (r Rect) Intersects(other Rect) bool
+//@   fp
+//@   ghost px float64, py float64
+//@   requires vcRectOK(r) && vcRectOK(other) && vcProbe(px, py)
+//@   ensures [complete] r.ContainsPoint(Point{px, py}) && other.ContainsPoint(Point{px, py}) ==> result
+
+//@ func (r Rect) AddPoint(p Point) Rect
+//@   fp
+//@   ghost px float64, py float64
+//@   requires vcRectOK(r) && vcProbe(px, py) && vcProbe(p.X, p.Y)
+//@   ensures [added] result.ContainsPoint(p)
+//@   ensures [kept] r.ContainsPoint(Point{px, py}) ==> result.ContainsPoint(Point{px, py})
+//@   ensures [valid] vcRectOK(result)
+
+//@ func (r Rect) ClampPoint(p Point) Point
+//@   fp
+//@   requires vcRectOK(r) && vcProbe(p.X, p.Y) && !r.IsEmpty()
+//@   ensures [inside] r.ContainsPoint(result)
+
+//@ func (r Rect) Expanded(margin Point) Rect
+//@   fp
+//@   ghost px float64, py float64
+//@   requires vcRectOK(r) && vcProbe(px, py) && margin.X >= 0 && margin.X <= 1e300 && margin.Y >= 0 && margin.Y <= 1e300
+//@   ensures [kept] r.ContainsPoint(Point{px, py}) ==> result.ContainsPoint(Point{px, py})
